@@ -810,6 +810,123 @@ func runITERLAZY(c *Ctx) {
 	}
 }
 
+// ITERALL: the entries of a node are delivered in order *with the subtrees between them*. A loop that hands a node's
+// entries to the callback one after the other without looking at the node's links in the same loop skips every
+// child that hangs between those entries.
+
+func init() {
+	Register(&Rule{ID: "ITERALL", Props: []string{"C10", "C01"}, Min: 2,
+		Doc: "in the node walk under Iter and SeekIter, every loop that delivers a node's entries (calls the entry callback with node.Key[i], node.Value[i]) also visits that node's links in the same loop " +
+			"(reads node.Link[…] and hands it to a call that can load): between two delivered entries the subtree between them is walked.",
+		Run: runITERALL})
+}
+
+func runITERALL(c *Ctx) {
+	P := c.P
+	roots := c.Entries("(*Mast).Iter", "(*Mast).SeekIter")
+	reach := c.Facts.Reach(roots...)
+	n := 0
+	for _, fn := range P.Funcs {
+		if fn.Pkg == nil || fn.Pkg.Pkg.Path() != ir.MastPath || !reach[ir.Outermost(fn)] {
+			continue
+		}
+		var cb *ssa.Parameter
+		for _, p := range fn.Params {
+			if sig, ok := p.Type().Underlying().(*types.Signature); ok && sig.Params().Len() == 2 && sig.Results().Len() == 1 && ir.IsErrorType(sig.Results().At(0).Type()) {
+				cb = p
+			}
+		}
+		if cb == nil {
+			continue
+		}
+		for _, b := range fn.Blocks {
+			if !inCycle(b) || ir.IsDead(b) {
+				continue
+			}
+			for _, ins := range b.Instrs {
+				call, ok := ins.(*ssa.Call)
+				if !ok || ir.ResolveCell(call.Call.Value) != ssa.Value(cb) || len(call.Call.Args) != 2 {
+					continue
+				}
+				// delivers node.Key[i]
+				var keyBase ssa.Value
+				if ld, ok := ir.Strip(call.Call.Args[0]).(*ssa.UnOp); ok && ld.Op == token.MUL {
+					if ia, ok := ld.X.(*ssa.IndexAddr); ok {
+						if base, f, ok := nodeSliceRoot(ia.X); ok && f == "Key" {
+							keyBase = ir.ResolveCell(base)
+						}
+					}
+				}
+				if keyBase == nil {
+					continue
+				}
+				n++
+				visits := false
+				fromB := ir.ReachableFrom(b, nil)
+				for _, b2 := range fn.Blocks {
+					if !fromB[b2] || !ir.ReachableFrom(b2, nil)[b] {
+						continue // not in the same cycle
+					}
+					for _, i2 := range b2.Instrs {
+						// a read of node.Link[j] / a range over node.Link in this loop …
+						var lv ssa.Value
+						switch y := i2.(type) {
+						case *ssa.IndexAddr:
+							if base, f, ok := nodeSliceRoot(y.X); ok && f == "Link" && ir.ResolveCell(base) == keyBase {
+								lv = y
+							}
+						case *ssa.Index:
+							if base, f, ok := nodeSliceRoot(y.X); ok && f == "Link" && ir.ResolveCell(base) == keyBase {
+								lv = y
+							}
+						}
+						if lv != nil {
+							visits = true
+						}
+					}
+				}
+				// … or the loop ranges over node.Link (the element arrives through the range's Next)
+				if !visits {
+					for _, b2 := range fn.Blocks {
+						for _, i2 := range b2.Instrs {
+							if rg, ok := i2.(*ssa.Range); ok {
+								if base, f, ok := nodeSliceRoot(rg.X); ok && f == "Link" && ir.ResolveCell(base) == keyBase {
+									visits = visits || (ir.ReachableFrom(rg.Block(), nil)[b])
+								}
+							}
+						}
+					}
+				}
+				// and some call of the loop can load (the visit is not just a nil test)
+				loads := false
+				for _, b2 := range fn.Blocks {
+					if !fromB[b2] || !ir.ReachableFrom(b2, nil)[b] {
+						continue
+					}
+					for _, i2 := range b2.Instrs {
+						if c2, ok := i2.(*ssa.Call); ok {
+							for _, callee := range c.Facts.Callees(c2) {
+								if c.Facts.MayLoad[callee] {
+									loads = true
+								}
+							}
+						}
+					}
+				}
+				if visits && loads {
+					c.OK(P.InstrPos(call), "entries delivered by a loop of "+ir.FuncName(fn), "the same loop reads the node's links and walks them", false)
+				} else {
+					c.Violation(fn, P.InstrPos(call), "entries delivered without the subtrees between them",
+						"a loop hands a node's entries to the callback one after the other without visiting the node's links in the same loop: every child that hangs between two of those entries is skipped, so a scan from a probe (or a whole iteration) silently omits keys")
+				}
+			}
+		}
+	}
+	if n == 0 {
+		c.AnchorMissing("a loop of the node walk that delivers node.Key[i]")
+	}
+}
+
 // usesValue: the call passes v as an argument.
 func usesValue(call *ssa.Call, v ssa.Value) bool {
 	for _, a := range call.Call.Args {
